@@ -284,7 +284,8 @@ Section SmoothFacts.
   Qed.
 
   (* ================================================================== *)
-  (* Part 3: continuity                                                  *)
+  (* Part 3: continuity, and smoothness from a derivative formula, for   *)
+  (* abstract families of one-sided values at a knot t                   *)
   (* ================================================================== *)
 
   (* t = g_{k+1}: which order-0 functions are 1 on the interval left of t *)
@@ -326,11 +327,11 @@ Section SmoothFacts.
       pose proof (blk_eq ks t a b (S i) Hb ltac:(lia) H3). lia.
   Qed.
 
-  (* ... and on the interval right of t *)
-  Lemma Bk0_right (ks : list F) t a b k i x :
-    blk ks t a b -> (a < b)%nat -> nth (k + 1) (unique ks) f0 = t ->
+  (* t = g_k: which order-0 functions are 1 on the interval right of t *)
+  Lemma Bk0_at (ks : list F) t a b k i x :
+    blk ks t a b -> (a < b)%nat -> nth k (unique ks) f0 = t ->
     (i + 1 < length ks)%nat ->
-    Bk ks 0 i (k + 1) x = if (i + 1 =? b)%nat then f1 else f0.
+    Bk ks 0 i k x = if (i + 1 =? b)%nat then f1 else f0.
   Proof.
     intros Hb Hab Ht Hi. pose proof Hb as (_ & Hlt & Heq & Hgt).
     cbn [Bk]. rewrite Ht. destruct (Nat.eqb_spec (i + 1) b) as [Ea|Ea].
@@ -342,42 +343,37 @@ Section SmoothFacts.
       pose proof (blk_gt ks t a b (i + 1) Hb Hi E1). lia.
   Qed.
 
-  (* the data of two adjacent intervals kl, kr meeting at the knot t *)
-  Definition adj (ks : list F) (t : F) (a b kl kr : nat) : Prop :=
-    blk ks t a b /\ (a < b)%nat /\
-    (forall i x, (i + 1 < length ks)%nat ->
-                 Bk ks 0 i kl x = if (i + 1 =? a)%nat then f1 else f0) /\
-    (forall i x, (i + 1 < length ks)%nat ->
-                 Bk ks 0 i kr x = if (i + 1 =? b)%nat then f1 else f0).
+  (* a family V p i of values "B_{i,p} at t" obeying the Cox–de Boor recursion *)
+  Definition vrec (ks : list F) (t : F) (V : nat -> nat -> F) : Prop :=
+    forall q i, V (S q) i =
+      (if fltb (knot ks i) (knot ks (i + q + 1))
+       then (t - knot ks i) / (knot ks (i + q + 1) - knot ks i) * V q i else f0)
+      + (if fltb (knot ks (i + 1)) (knot ks (i + q + 2))
+         then (knot ks (i + q + 2) - t) / (knot ks (i + q + 2) - knot ks (i + 1)) * V q (i + 1)%nat
+         else f0).
 
-  Lemma adj_grid (ks : list F) k : nondecreasing ks ->
-    (k + 1 < length (unique ks))%nat ->
-    exists a b, adj ks (nth (k + 1) (unique ks) f0) a b k (k + 1) /\
-                (b - a)%nat = mult ks (nth (k + 1) (unique ks) f0).
-  Proof.
-    intros Hn Hk. set (t := nth (k + 1) (unique ks) f0).
-    destruct (blk_exists ks t Hn) as (a & b & Hb & Hm).
-    assert (a < b)%nat as Hab.
-    { apply (blk_nonempty ks t a b Hb). apply unique_In. apply nth_In. exact Hk. }
-    exists a, b. split; [|exact Hm]. split; [exact Hb|]. split; [exact Hab|]. split.
-    - intros i x Hi. apply (Bk0_left ks t a b); try assumption. reflexivity.
-    - intros i x Hi. apply (Bk0_right ks t a b); try assumption. reflexivity.
-  Qed.
+  (* the left-hand and right-hand values at the knot t with index block [a, b):
+     of the order-0 functions only the one ending at t (index a-1) is 1 on the
+     left, only the one starting at t (index b-1) is 1 on the right *)
+  Definition adjV (ks : list F) (t : F) (a b : nat) (VL VR : nat -> nat -> F) : Prop :=
+    blk ks t a b /\ vrec ks t VL /\ vrec ks t VR /\
+    (forall i, (i + 1 < length ks)%nat -> VL 0%nat i = if (i + 1 =? a)%nat then f1 else f0) /\
+    (forall i, (i + 1 < length ks)%nat -> VR 0%nat i = if (i + 1 =? b)%nat then f1 else f0).
 
   (* t_i < t_{i+1} = ... = t_{i+p+1} = t: the left piece ends with value 1 at t,
      the right piece is zero *)
-  Lemma V_full_right (ks : list F) t a b kl kr : adj ks t a b kl kr ->
+  Lemma V_full_right (ks : list F) t a b VL VR : adjV ks t a b VL VR ->
     forall p i, (i + 1 = a)%nat -> (i + p + 2 <= b)%nat -> (i + p + 1 < length ks)%nat ->
-    Bk ks p i kl t = f1 /\ Bk ks p i kr t = f0.
+    VL p i = f1 /\ VR p i = f0.
   Proof.
-    intros ((_ & Hlt & Heq & Hgt) & Hab & H0l & H0r).
+    intros ((_ & Hlt & Heq & Hgt) & RL & RR & H0l & H0r).
     induction p as [|q IH]; intros i Ha Hb Hi.
     - rewrite H0l, H0r by lia.
       destruct (Nat.eqb_spec (i + 1) a) as [_|E]; [|lia].
       destruct (Nat.eqb_spec (i + 1) b) as [E|_]; [lia|]. split; reflexivity.
     - destruct (IH i Ha ltac:(lia) ltac:(lia)) as [IH1 IH2].
       pose proof (Hlt i ltac:(lia)) as H1.
-      cbn [Bk]. rewrite IH1, IH2.
+      rewrite (RL q i), (RR q i), IH1, IH2.
       rewrite (Heq (i + q + 1)%nat ltac:(lia)), (Heq (i + 1)%nat ltac:(lia)),
         (Heq (i + q + 2)%nat ltac:(lia)), H1, flt_irrefl.
       split; field; apply fsub_neq0; exact H1.
@@ -385,38 +381,38 @@ Section SmoothFacts.
 
   (* t = t_i = ... = t_{i+p} < t_{i+p+1}: the left piece is zero, the right
      piece starts with value 1 at t *)
-  Lemma V_full_left (ks : list F) t a b kl kr : adj ks t a b kl kr ->
+  Lemma V_full_left (ks : list F) t a b VL VR : adjV ks t a b VL VR ->
     forall p i, (a <= i)%nat -> (i + p + 1 = b)%nat -> (i + p + 1 < length ks)%nat ->
-    Bk ks p i kl t = f0 /\ Bk ks p i kr t = f1.
+    VL p i = f0 /\ VR p i = f1.
   Proof.
-    intros ((_ & Hlt & Heq & Hgt) & Hab & H0l & H0r).
+    intros ((_ & Hlt & Heq & Hgt) & RL & RR & H0l & H0r).
     induction p as [|q IH]; intros i Ha Hb Hi.
     - rewrite H0l, H0r by lia.
       destruct (Nat.eqb_spec (i + 1) a) as [E|_]; [lia|].
       destruct (Nat.eqb_spec (i + 1) b) as [_|E]; [|lia]. split; reflexivity.
     - destruct (IH (i + 1)%nat ltac:(lia) ltac:(lia) ltac:(lia)) as [IH1 IH2].
       pose proof (Hgt (i + q + 2)%nat ltac:(lia)) as H1.
-      cbn [Bk]. rewrite IH1, IH2.
+      rewrite (RL q i), (RR q i), IH1, IH2.
       rewrite (Heq (i + q + 1)%nat ltac:(lia)), (Heq (i + 1)%nat ltac:(lia)),
         (Heq i ltac:(lia)), H1, flt_irrefl.
       split; field; apply fsub_neq0; exact H1.
   Qed.
 
-  (* number of knots among t_i .. t_{i+p+1} that equal t *)
+  (* number of knots among t_i .. t_{i+p+1} with index in [a, b) *)
   Definition lmult (a b i p : nat) : nat := (Nat.min b (i + p + 2) - Nat.max a i)%nat.
 
-  (* continuity: if at most p of the knots of B_{i,p} equal t, the two pieces
-     take the same value at t *)
-  Lemma V_cont (ks : list F) t a b kl kr : adj ks t a b kl kr ->
+  (* continuity: if at most p of the knots of B_{i,p} equal t, the left and
+     the right value at t agree *)
+  Lemma V_cont (ks : list F) t a b VL VR : adjV ks t a b VL VR ->
     forall p i, (i + p + 1 < length ks)%nat -> (lmult a b i p <= p)%nat ->
-    Bk ks p i kl t = Bk ks p i kr t.
+    VL p i = VR p i.
   Proof.
-    intros Hadj. pose proof Hadj as ((_ & Hlt & Heq & Hgt) & Hab & H0l & H0r).
+    intros Hadj. pose proof Hadj as ((Hab & Hlt & Heq & Hgt) & RL & RR & H0l & H0r).
     unfold lmult. induction p as [|q IH]; intros i Hi Hm.
     - rewrite H0l, H0r by lia.
-      destruct (Nat.eqb_spec (i + 1) a) as [E1|E1]; [lia|].
-      destruct (Nat.eqb_spec (i + 1) b) as [E2|E2]; [lia|]. reflexivity.
-    - cbn [Bk].
+      destruct (Nat.eqb_spec (i + 1) a) as [E1|E1];
+        destruct (Nat.eqb_spec (i + 1) b) as [E2|E2]; try reflexivity; lia.
+    - rewrite (RL q i), (RR q i).
       destruct (le_lt_dec (Nat.min b (i + q + 2) - Nat.max a i) q) as [H1|H1];
         destruct (le_lt_dec (Nat.min b (i + 1 + q + 2) - Nat.max a (i + 1)) q) as [H2|H2].
       + rewrite (IH i), (IH (i + 1)%nat) by lia. reflexivity.
@@ -434,13 +430,199 @@ Section SmoothFacts.
         replace (t - t) with (@f0 F K) by ring. rewrite fdiv_0_l. ring.
       + (* t_i < t = t_{i+1} = ... = t_{i+q+1} < t_{i+q+2}: the jumps cancel *)
         assert (a = i + 1 /\ b = i + q + 2)%nat as [Ea Eb] by lia.
-        destruct (V_full_right ks t a b kl kr Hadj q i ltac:(lia) ltac:(lia) ltac:(lia)) as [R1 R2].
-        destruct (V_full_left ks t a b kl kr Hadj q (i + 1)%nat ltac:(lia) ltac:(lia) ltac:(lia))
+        destruct (V_full_right ks t a b VL VR Hadj q i ltac:(lia) ltac:(lia) ltac:(lia)) as [R1 R2].
+        destruct (V_full_left ks t a b VL VR Hadj q (i + 1)%nat ltac:(lia) ltac:(lia) ltac:(lia))
           as [L1 L2].
         rewrite R1, R2, L1, L2.
         pose proof (Hlt i ltac:(lia)) as G1. pose proof (Hgt (i + q + 2)%nat ltac:(lia)) as G2.
         rewrite (Heq (i + q + 1)%nat ltac:(lia)), (Heq (i + 1)%nat ltac:(lia)), G1, G2.
         field. split; apply fsub_neq0; assumption.
+  Qed.
+
+  (* a family D d p i of values "d-th derivative of B_{i,p} at t" obeying the
+     derivative formula *)
+  Definition drec (ks : list F) (D : nat -> nat -> nat -> F) : Prop :=
+    forall d q i, (i + q + 2 < length ks)%nat ->
+      D (S d) (S q) i =
+      fofnat (S q) *
+      ((if fltb (knot ks i) (knot ks (i + q + 1))
+        then D d q i / (knot ks (i + q + 1) - knot ks i) else f0)
+       - (if fltb (knot ks (i + 1)) (knot ks (i + q + 2))
+          then D d q (i + 1)%nat / (knot ks (i + q + 2) - knot ks (i + 1)) else f0)).
+
+  (* smoothness: each derivative lowers the order by one and keeps the knots *)
+  Lemma D_smooth (ks : list F) t a b DL DR :
+    adjV ks t a b (DL 0%nat) (DR 0%nat) -> drec ks DL -> drec ks DR ->
+    forall d p i, (i + p + 1 < length ks)%nat -> (d + lmult a b i p <= p)%nat ->
+    DL d p i = DR d p i.
+  Proof.
+    intros Hadj HL HR. induction d as [|d IH]; intros p i Hi Hm.
+    - apply (V_cont ks t a b _ _ Hadj); [exact Hi | lia].
+    - destruct p as [|q]; [lia|].
+      rewrite (HL d q i), (HR d q i) by lia.
+      unfold lmult in *.
+      rewrite (IH q i) by lia. rewrite (IH q (i + 1)%nat) by lia. reflexivity.
+  Qed.
+
+  (* the zero family (the function outside the grid) *)
+  Definition DZ : nat -> nat -> nat -> F := fun _ _ _ => f0.
+
+  Lemma DZ_vrec (ks : list F) t : vrec ks t (DZ 0%nat).
+  Proof.
+    intros q i. unfold DZ.
+    destruct (fltb (knot ks i) (knot ks (i + q + 1)));
+      destruct (fltb (knot ks (i + 1)) (knot ks (i + q + 2))); ring.
+  Qed.
+
+  Lemma DZ_drec (ks : list F) : drec ks DZ.
+  Proof.
+    intros d q i _. unfold DZ.
+    destruct (fltb (knot ks i) (knot ks (i + q + 1)));
+      destruct (fltb (knot ks (i + 1)) (knot ks (i + q + 2)));
+      rewrite ?fdiv_0_l; ring.
+  Qed.
+
+  (* ================================================================== *)
+  (* Part 4: the derivative formula                                      *)
+  (* ================================================================== *)
+
+  Lemma peval_pderiv_BP0 (ks : list F) i k x : peval (pderiv (BP ks 0 i k)) x = f0.
+  Proof.
+    cbn [BP].
+    destruct (fltb (knot ks i) (knot ks (i + 1)) && feqb (knot ks i) (nth k (unique ks) f0));
+      reflexivity.
+  Qed.
+
+  (* product rule applied to the recursion *)
+  Lemma peval_pderiv_BP_S (ks : list F) q i k x :
+    peval (pderiv (BP ks (S q) i k)) x =
+    (if fltb (knot ks i) (knot ks (i + q + 1))
+     then (Bk ks q i k x + (x - knot ks i) * peval (pderiv (BP ks q i k)) x)
+          / (knot ks (i + q + 1) - knot ks i)
+     else f0)
+    + (if fltb (knot ks (i + 1)) (knot ks (i + q + 2))
+       then (- Bk ks q (i + 1) k x
+             + (knot ks (i + q + 2) - x) * peval (pderiv (BP ks q (i + 1) k)) x)
+            / (knot ks (i + q + 2) - knot ks (i + 1))
+       else f0).
+  Proof.
+    cbn [BP]. rewrite peval_pderiv_padd.
+    destruct (fltb (knot ks i) (knot ks (i + q + 1))) eqn:E1;
+      destruct (fltb (knot ks (i + 1)) (knot ks (i + q + 2))) eqn:E2;
+      rewrite ?peval_pderiv_pscale_l, ?peval_pderiv_pmul, ?peval_BP;
+      cbn [pderiv pderiv_from peval]; rewrite ?fofnat_1;
+      field; repeat split; apply fsub_neq0; assumption.
+  Qed.
+
+  (* B'_{i,p} = p ( B_{i,p-1}/(t_{i+p}-t_i) - B_{i+1,p-1}/(t_{i+p+1}-t_{i+1}) ),
+     on every grid interval k, as polynomial functions; terms with a
+     zero-width denominator are dropped *)
+  Lemma BP_deriv (ks : list F) k x : nondecreasing ks ->
+    forall q i, (i + q + 2 < length ks)%nat ->
+    peval (pderiv (BP ks (S q) i k)) x =
+    fofnat (S q) *
+    ((if fltb (knot ks i) (knot ks (i + q + 1))
+      then Bk ks q i k x / (knot ks (i + q + 1) - knot ks i) else f0)
+     - (if fltb (knot ks (i + 1)) (knot ks (i + q + 2))
+        then Bk ks q (i + 1) k x / (knot ks (i + q + 2) - knot ks (i + 1)) else f0)).
+  Proof.
+    intros Hn. induction q as [|r IH]; intros i Hi.
+    - rewrite peval_pderiv_BP_S, !peval_pderiv_BP0, fofnat_1.
+      destruct (fltb (knot ks i) (knot ks (i + 0 + 1))) eqn:E1;
+        destruct (fltb (knot ks (i + 1)) (knot ks (i + 0 + 2))) eqn:E2;
+        field; repeat split; apply fsub_neq0; assumption.
+    - rewrite peval_pderiv_BP_S, (IH i), (IH (i + 1)%nat) by lia.
+      cbn [Bk]. rewrite (fofnat_S (S r)).
+      replace (i + S r + 1)%nat with (i + r + 2)%nat by lia.
+      replace (i + S r + 2)%nat with (i + r + 3)%nat by lia.
+      replace (i + 1 + r + 1)%nat with (i + r + 2)%nat by lia.
+      replace (i + 1 + r + 2)%nat with (i + r + 3)%nat by lia.
+      replace (i + 1 + 1)%nat with (i + 2)%nat by lia.
+      assert (fleb (knot ks i) (knot ks (i + 1)) = true) as M1
+        by (apply nondecreasing_knot_le; [exact Hn | lia | lia]).
+      assert (fleb (knot ks (i + r + 2)) (knot ks (i + r + 3)) = true) as M2
+        by (apply nondecreasing_knot_le; [exact Hn | lia | lia]).
+      set (A := Bk ks r i k x). set (B := Bk ks r (i + 1) k x). set (C := Bk ks r (i + 2) k x).
+      set (n := fofnat (S r)).
+      set (t0 := knot ks i) in *. set (t1 := knot ks (i + 1)) in *. set (t2 := knot ks (i + 2)) in *.
+      set (s1 := knot ks (i + r + 1)) in *. set (s2 := knot ks (i + r + 2)) in *.
+      set (s3 := knot ks (i + r + 3)) in *.
+      clearbody A B C n t0 t1 t2 s1 s2 s3.
+      destruct (fltb t1 s2) eqn:F2.
+      + assert (fltb t0 s2 = true) as F1 by exact (fle_lt_trans _ _ _ M1 F2).
+        assert (fltb t1 s3 = true) as F3 by exact (flt_le_trans _ _ _ F2 M2).
+        rewrite F1, F3.
+        destruct (fltb t0 s1) eqn:G1; destruct (fltb t2 s3) eqn:G3;
+          field; repeat split; apply fsub_neq0; assumption.
+      + destruct (fltb t0 s2) eqn:F1; destruct (fltb t1 s3) eqn:F3;
+          destruct (fltb t0 s1) eqn:G1; destruct (fltb t2 s3) eqn:G3;
+          field; repeat split; apply fsub_neq0; assumption.
+  Qed.
+
+  (* the right-hand side of the derivative formula as a coefficient list *)
+  Definition DP (ks : list F) (q i k : nat) : list F :=
+    pscale_l (fofnat (S q))
+      (padd (if fltb (knot ks i) (knot ks (i + q + 1))
+             then pscale_l (f1 / (knot ks (i + q + 1) - knot ks i)) (BP ks q i k) else [])
+            (pscale_l (- f1)
+               (if fltb (knot ks (i + 1)) (knot ks (i + q + 2))
+                then pscale_l (f1 / (knot ks (i + q + 2) - knot ks (i + 1))) (BP ks q (i + 1) k)
+                else []))).
+
+  Lemma peval_pderivn_DP (ks : list F) q i k d x :
+    peval (pderivn d (DP ks q i k)) x =
+    fofnat (S q) *
+    ((if fltb (knot ks i) (knot ks (i + q + 1))
+      then peval (pderivn d (BP ks q i k)) x / (knot ks (i + q + 1) - knot ks i) else f0)
+     - (if fltb (knot ks (i + 1)) (knot ks (i + q + 2))
+        then peval (pderivn d (BP ks q (i + 1) k)) x / (knot ks (i + q + 2) - knot ks (i + 1))
+        else f0)).
+  Proof.
+    unfold DP. rewrite peval_pderivn_pscale_l, peval_pderivn_padd, peval_pderivn_pscale_l.
+    destruct (fltb (knot ks i) (knot ks (i + q + 1))) eqn:E1;
+      destruct (fltb (knot ks (i + 1)) (knot ks (i + q + 2))) eqn:E2;
+      rewrite ?peval_pderivn_pscale_l, ?peval_pderivn_nil;
+      field; repeat split; apply fsub_neq0; assumption.
+  Qed.
+
+  (* priority 2, list form: the derivative of the order-(q+1) polynomial on
+     interval k is the combination [DP] of the two order-q polynomials *)
+  Lemma BP_deriv_peq (ks : list F) q i k : nondecreasing ks -> (i + q + 2 < length ks)%nat ->
+    peq (pderiv (BP ks (S q) i k)) (DP ks q i k).
+  Proof.
+    intros Hn Hi x. rewrite (BP_deriv ks k x Hn q i Hi).
+    pose proof (peval_pderivn_DP ks q i k 0 x) as H. cbn [pderivn] in H.
+    rewrite H, !peval_BP. reflexivity.
+  Qed.
+
+  (* ================================================================== *)
+  (* Part 5: smoothness of the generated splines                         *)
+  (* ================================================================== *)
+
+  (* the family of the d-th derivatives at t of the polynomials on interval k *)
+  Definition DB (ks : list F) (k : nat) (t : F) : nat -> nat -> nat -> F :=
+    fun d p i => peval (pderivn d (BP ks p i k)) t.
+
+  Lemma DB_vrec (ks : list F) k t : vrec ks t (DB ks k t 0%nat).
+  Proof. intros q i. unfold DB. cbn [pderivn]. rewrite !peval_BP. reflexivity. Qed.
+
+  Lemma DB_drec (ks : list F) k t : nondecreasing ks -> drec ks (DB ks k t).
+  Proof.
+    intros Hn d q i Hi. unfold DB. cbn [pderivn].
+    rewrite (peval_pderivn_ext d _ _ (BP_deriv_peq ks q i k Hn Hi)).
+    apply peval_pderivn_DP.
+  Qed.
+
+  Lemma DB_0_0 (ks : list F) k t i : DB ks k t 0%nat 0%nat i = Bk ks 0 i k t.
+  Proof. unfold DB. cbn [pderivn]. apply peval_BP. Qed.
+
+  Lemma gen_length (ks : list F) p l :
+    nondecreasing ks -> two_distinct ks -> (nlen ks < 2 ^ 63)%N -> (p + 1 <= length ks)%nat ->
+    generate_bsplines p ks = Ok l -> length l = (length ks - p - 1)%nat.
+  Proof.
+    intros Hn Hd Hl Hp El.
+    destruct (gen_count ks p Hn Hd Hl Hp) as (l' & El' & Ll & _).
+    rewrite El in El'. injection El' as <-. exact Ll.
   Qed.
 
   (* [jump_free] of a generated spline, in terms of [BP] *)
@@ -459,13 +641,41 @@ Section SmoothFacts.
     rewrite (gen_grid ks p l i Hn Hd Hl Hp El Hi). unfold gnth. rewrite Nat2N.id. reflexivity.
   Qed.
 
-  Lemma gen_length (ks : list F) p l :
+  (* the smoothness theorem with the local multiplicity: only the knots
+     t_i .. t_{i+p+1} of the function itself count *)
+  Theorem gen_smooth_local (ks : list F) p l i k d a b :
     nondecreasing ks -> two_distinct ks -> (nlen ks < 2 ^ 63)%N -> (p + 1 <= length ks)%nat ->
-    generate_bsplines p ks = Ok l -> length l = (length ks - p - 1)%nat.
+    generate_bsplines p ks = Ok l -> (i < length l)%nat ->
+    (k + 2 < length (unique ks))%nat ->
+    blk ks (nth (k + 1) (unique ks) f0) a b ->
+    (d + lmult a b i p <= p)%nat ->
+    jump_free (nth i l dflt_spline) (N.of_nat k) d.
   Proof.
-    intros Hn Hd Hl Hp El.
-    destruct (gen_count ks p Hn Hd Hl Hp) as (l' & El' & Ll & _).
-    rewrite El in El'. injection El' as <-. exact Ll.
+    intros Hn Hd Hl Hp El Hi Hk Hb Hm.
+    apply (jump_free_BP ks p l i k d Hn Hd Hl Hp El Hi Hk).
+    pose proof (gen_length ks p l Hn Hd Hl Hp El) as Ll.
+    set (t := nth (k + 1) (unique ks) f0) in *.
+    assert (a < b)%nat as Hab.
+    { apply (blk_nonempty ks t a b Hb). apply unique_In. apply nth_In. lia. }
+    apply (D_smooth ks t a b (DB ks k t) (DB ks (k + 1) t));
+      [| apply DB_drec; exact Hn | apply DB_drec; exact Hn | lia | exact Hm].
+    split; [exact Hb|]. split; [apply DB_vrec|]. split; [apply DB_vrec|]. split.
+    - intros j Hj. rewrite DB_0_0. apply (Bk0_left ks t a b); try assumption; [lia | reflexivity].
+    - intros j Hj. rewrite DB_0_0. apply (Bk0_at ks t a b); try assumption. reflexivity.
+  Qed.
+
+  (* the main theorem *)
+  Theorem gen_smooth (ks : list F) p l i k d :
+    nondecreasing ks -> two_distinct ks -> (nlen ks < 2 ^ 63)%N -> (p + 1 <= length ks)%nat ->
+    generate_bsplines p ks = Ok l -> (i < length l)%nat ->
+    (k + 2 < length (unique ks))%nat ->
+    (d + mult ks (nth (k + 1) (unique ks) f0) <= p)%nat ->
+    jump_free (nth i l (mkSpl (mkSup [] 0 0) 0 [])) (N.of_nat k) d.
+  Proof.
+    intros Hn Hd Hl Hp El Hi Hk Hm.
+    destruct (blk_exists ks (nth (k + 1) (unique ks) f0) Hn) as (a & b & Hb & Hab).
+    apply (gen_smooth_local ks p l i k d a b); try assumption.
+    unfold lmult. lia.
   Qed.
 
   (* priority 1: the case d = 0 *)
@@ -474,14 +684,357 @@ Section SmoothFacts.
     generate_bsplines p ks = Ok l -> (i < length l)%nat ->
     (k + 2 < length (unique ks))%nat ->
     (mult ks (nth (k + 1) (unique ks) f0) <= p)%nat ->
-    jump_free (nth i l dflt_spline) (N.of_nat k) 0.
+    jump_free (nth i l (mkSpl (mkSup [] 0 0) 0 [])) (N.of_nat k) 0.
+  Proof.
+    intros Hn Hd Hl Hp El Hi Hk Hm. apply (gen_smooth ks p l i k 0); assumption.
+  Qed.
+
+  (* ---- the two ends of the grid: the generated functions join the zero
+     function outside the grid with the same smoothness ---- *)
+
+  (* the first grid point is the first knot: no knot lies before its block *)
+  Lemma blk_first (ks : list F) a b : blk ks (nth 0 (unique ks) f0) a b -> a = 0%nat.
+  Proof.
+    intros (_ & Hlt & _). destruct a as [|a]; [reflexivity|]. exfalso.
+    pose proof (Hlt 0%nat ltac:(lia)) as H.
+    destruct ks as [|c r].
+    - cbn in H. rewrite flt_irrefl in H. discriminate.
+    - destruct (unique_head c r) as [u Hu]. rewrite Hu in H. cbn [nth] in H.
+      rewrite knot_cons_0, flt_irrefl in H. discriminate.
+  Qed.
+
+  (* the last grid point is the last knot: no knot lies after its block *)
+  Lemma blk_last (ks : list F) k a b : nondecreasing ks ->
+    (k + 1 = length (unique ks))%nat -> blk ks (nth k (unique ks) f0) a b -> b = length ks.
+  Proof.
+    intros Hn Hk (Hab & _ & _ & Hgt).
+    destruct (Nat.eq_dec b (length ks)) as [E|E]; [exact E|]. exfalso.
+    pose proof (Hgt (length ks - 1)%nat ltac:(lia)) as H.
+    assert (In (knot ks (length ks - 1)) (unique ks)) as Hin.
+    { apply knot_in_grid. apply nth_In. lia. }
+    apply In_nth_error in Hin as [m Hm].
+    assert (m < length (unique ks))%nat as Hml by (apply nth_error_Some; congruence).
+    assert (nth_error (unique ks) k = Some (nth k (unique ks) f0)) as Ek
+      by (apply nth_error_nth'; lia).
+    pose proof (increasing_le (unique ks) m k _ _ (unique_increasing ks Hn) ltac:(lia) Hm Ek) as Hle.
+    pose proof (fle_lt_trans _ _ _ Hle H) as H2. rewrite flt_irrefl in H2. discriminate.
+  Qed.
+
+  Theorem gen_smooth_first (ks : list F) p l i d :
+    nondecreasing ks -> two_distinct ks -> (nlen ks < 2 ^ 63)%N -> (p + 1 <= length ks)%nat ->
+    generate_bsplines p ks = Ok l -> (i < length l)%nat ->
+    (d + mult ks (nth 0 (unique ks) f0) <= p)%nat ->
+    let s := nth i l (mkSpl (mkSup [] 0 0) 0 []) in
+    dval (piece s 0) d (gnth (sgridp s) 0) (mid (sgridp s) 0) = f0.
+  Proof.
+    intros Hn Hd Hl Hp El Hi Hm s. subst s. fold dflt_spline.
+    pose proof (unique_length_ge2 ks Hn Hd) as H2.
+    pose proof (gen_length ks p l Hn Hd Hl Hp El) as Ll.
+    pose proof (gen_piece_dval ks p l i 0 d (nth 0 (unique ks) f0) Hn Hd Hl Hp El Hi ltac:(lia)) as HD.
+    cbn [N.of_nat] in HD.
+    rewrite (gen_grid ks p l i Hn Hd Hl Hp El Hi) in *.
+    unfold gnth at 1. cbn [N.to_nat]. rewrite HD. clear HD.
+    set (t := nth 0 (unique ks) f0) in *.
+    destruct (blk_exists ks t Hn) as (a & b & Hb & Hab).
+    pose proof (blk_first ks a b Hb) as Ha. subst a.
+    assert (0 < b)%nat as Hb0.
+    { apply (blk_nonempty ks t 0 b Hb). apply unique_In. apply nth_In. lia. }
+    symmetry.
+    apply (D_smooth ks t 0 b DZ (DB ks 0 t));
+      [| apply DZ_drec | apply DB_drec; exact Hn | lia | unfold lmult; lia].
+    split; [exact Hb|]. split; [apply DZ_vrec|]. split; [apply DB_vrec|]. split.
+    - intros j Hj. unfold DZ. destruct (Nat.eqb_spec (j + 1) 0) as [E|_]; [lia | reflexivity].
+    - intros j Hj. rewrite DB_0_0. apply (Bk0_at ks t 0 b); try assumption. reflexivity.
+  Qed.
+
+  Theorem gen_smooth_last (ks : list F) p l i k d :
+    nondecreasing ks -> two_distinct ks -> (nlen ks < 2 ^ 63)%N -> (p + 1 <= length ks)%nat ->
+    generate_bsplines p ks = Ok l -> (i < length l)%nat ->
+    (k + 2 = length (unique ks))%nat ->
+    (d + mult ks (nth (k + 1) (unique ks) f0) <= p)%nat ->
+    let s := nth i l (mkSpl (mkSup [] 0 0) 0 []) in
+    dval (piece s (N.of_nat k)) d (gnth (sgridp s) (N.of_nat k + 1)) (mid (sgridp s) (N.of_nat k))
+    = f0.
+  Proof.
+    intros Hn Hd Hl Hp El Hi Hk Hm s. subst s. fold dflt_spline.
+    pose proof (gen_length ks p l Hn Hd Hl Hp El) as Ll.
+    rewrite (gen_piece_dval ks p l i k d _ Hn Hd Hl Hp El Hi ltac:(lia)).
+    rewrite (gen_grid ks p l i Hn Hd Hl Hp El Hi).
+    replace (gnth (unique ks) (N.of_nat k + 1)) with (nth (k + 1) (unique ks) f0)
+      by (unfold gnth; f_equal; lia).
+    set (t := nth (k + 1) (unique ks) f0) in *.
+    destruct (blk_exists ks t Hn) as (a & b & Hb & Hab).
+    pose proof (blk_last ks (k + 1) a b Hn ltac:(lia) Hb) as Hbl. subst b.
+    assert (a < length ks)%nat as Ha.
+    { apply (blk_nonempty ks t a _ Hb). apply unique_In. apply nth_In. lia. }
+    apply (D_smooth ks t a (length ks) (DB ks k t) DZ);
+      [| apply DB_drec; exact Hn | apply DZ_drec | lia | unfold lmult; lia].
+    split; [exact Hb|]. split; [apply DB_vrec|]. split; [apply DZ_vrec|]. split.
+    - intros j Hj. rewrite DB_0_0. apply (Bk0_left ks t a (length ks)); try assumption; [lia | reflexivity].
+    - intros j Hj. unfold DZ.
+      destruct (Nat.eqb_spec (j + 1) (length ks)) as [E|_]; [lia | reflexivity].
+  Qed.
+
+  (* [jump_free] at every grid point but the first, the last one included:
+     beyond the last interval the piece is the zero polynomial *)
+  Theorem gen_smooth_all (ks : list F) p l i k d :
+    nondecreasing ks -> two_distinct ks -> (nlen ks < 2 ^ 63)%N -> (p + 1 <= length ks)%nat ->
+    generate_bsplines p ks = Ok l -> (i < length l)%nat ->
+    (k + 1 < length (unique ks))%nat ->
+    (d + mult ks (nth (k + 1) (unique ks) f0) <= p)%nat ->
+    jump_free (nth i l (mkSpl (mkSup [] 0 0) 0 [])) (N.of_nat k) d.
   Proof.
     intros Hn Hd Hl Hp El Hi Hk Hm.
-    apply (jump_free_BP ks p l i k 0 Hn Hd Hl Hp El Hi Hk). cbn [pderivn].
-    rewrite !peval_BP.
-    pose proof (gen_length ks p l Hn Hd Hl Hp El) as Ll.
-    destruct (adj_grid ks k Hn ltac:(lia)) as (a & b & Hadj & Hab).
-    apply (V_cont ks _ a b k (k + 1) Hadj); [lia|]. unfold lmult. lia.
+    destruct (Nat.eq_dec (k + 2) (length (unique ks))) as [E|E].
+    - unfold jump_free.
+      rewrite (gen_smooth_last ks p l i k d Hn Hd Hl Hp El Hi E Hm). fold dflt_spline.
+      destruct (gen_count ks p Hn Hd Hl Hp) as (l' & El' & _ & Hinv & _).
+      rewrite El in El'. injection El' as <-.
+      pose proof (proj1 (Forall_nth _ l) Hinv i dflt_spline Hi) as Is.
+      pose proof (gen_grid ks p l i Hn Hd Hl Hp El Hi) as Gs.
+      rewrite piece_out.
+      + unfold dval. rewrite peval_pderivn_nil. reflexivity.
+      + destruct Is as (Ss & _). apply SInv_bounds in Ss.
+        unfold sgridp in Gs. unfold dflt_spline in *. rewrite Gs in Ss.
+        unfold imem, nlen in *. lia.
+    - apply (gen_smooth ks p l i k d); try assumption. lia.
+  Qed.
+
+  (* priority 2: the derivative formula at the level of the stored pieces of
+     the generated splines of orders q+1 and q, as polynomial functions of
+     the local variable u = x - mid k *)
+  Theorem B_derivative_formula (ks : list F) q l l' i k u :
+    nondecreasing ks -> two_distinct ks -> (nlen ks < 2 ^ 63)%N -> (q + 2 <= length ks)%nat ->
+    generate_bsplines (S q) ks = Ok l -> generate_bsplines q ks = Ok l' ->
+    (i < length l)%nat -> (k + 1 < length (unique ks))%nat ->
+    peval (pderiv (piece (nth i l dflt_spline) (N.of_nat k))) u =
+    fofnat (S q) *
+    ((if fltb (knot ks i) (knot ks (i + q + 1))
+      then peval (piece (nth i l' dflt_spline) (N.of_nat k)) u
+           / (knot ks (i + q + 1) - knot ks i) else f0)
+     - (if fltb (knot ks (i + 1)) (knot ks (i + q + 2))
+        then peval (piece (nth (i + 1) l' dflt_spline) (N.of_nat k)) u
+             / (knot ks (i + q + 2) - knot ks (i + 1)) else f0)).
+  Proof.
+    intros Hn Hd Hl Hp El El' Hi Hk.
+    pose proof (gen_length ks (S q) l Hn Hd Hl ltac:(lia) El) as Ll.
+    pose proof (gen_length ks q l' Hn Hd Hl ltac:(lia) El') as Ll'.
+    set (m := mid (unique ks) (N.of_nat k)).
+    assert (forall j, (j < length l')%nat ->
+              Bk ks q j k (u + m) = peval (piece (nth j l' dflt_spline) (N.of_nat k)) u) as HB.
+    { intros j Hj. rewrite <- (gen_is_Bk ks q l' j k (u + m) Hn Hd Hl ltac:(lia) El' Hj Hk).
+      unfold den. f_equal.
+      change (sgrid (ssup (nth j l' (mkSpl (mkSup [] 0 0) 0 []))))
+        with (sgridp (nth j l' dflt_spline)).
+      rewrite (gen_grid ks q l' j Hn Hd Hl ltac:(lia) El' Hj). unfold m. ring. }
+    pose proof (gen_piece_dval ks (S q) l i k 1 (u + m) Hn Hd Hl ltac:(lia) El Hi Hk) as HD.
+    rewrite (gen_grid ks (S q) l i Hn Hd Hl ltac:(lia) El Hi) in HD. fold m in HD.
+    unfold dval in HD. cbn [pderivn] in HD.
+    replace (u + m - m) with u in HD by ring. rewrite HD.
+    rewrite (BP_deriv ks k (u + m) Hn q i ltac:(lia)).
+    rewrite (HB i), (HB (i + 1)%nat) by lia. reflexivity.
+  Qed.
+
+  (* priority 3: a simple knot costs exactly one order of smoothness *)
+  Corollary gen_smooth_simple (ks : list F) p l i k d :
+    nondecreasing ks -> two_distinct ks -> (nlen ks < 2 ^ 63)%N -> (p + 1 <= length ks)%nat ->
+    generate_bsplines p ks = Ok l -> (i < length l)%nat ->
+    (k + 2 < length (unique ks))%nat ->
+    mult ks (nth (k + 1) (unique ks) f0) = 1%nat -> (d + 1 <= p)%nat ->
+    jump_free (nth i l (mkSpl (mkSup [] 0 0) 0 [])) (N.of_nat k) d.
+  Proof.
+    intros Hn Hd Hl Hp El Hi Hk Hm Hdp. apply (gen_smooth ks p l i k d); try assumption. lia.
+  Qed.
+
+  (* the case d = 0 at the level of the functions denoted *)
+  Corollary gen_continuous_den (ks : list F) p l i k :
+    nondecreasing ks -> two_distinct ks -> (nlen ks < 2 ^ 63)%N -> (p + 1 <= length ks)%nat ->
+    generate_bsplines p ks = Ok l -> (i < length l)%nat ->
+    (k + 2 < length (unique ks))%nat ->
+    (mult ks (nth (k + 1) (unique ks) f0) <= p)%nat ->
+    den (nth i l (mkSpl (mkSup [] 0 0) 0 [])) (N.of_nat k) (nth (k + 1) (unique ks) f0)
+    = den (nth i l (mkSpl (mkSup [] 0 0) 0 [])) (N.of_nat k + 1) (nth (k + 1) (unique ks) f0).
+  Proof.
+    intros Hn Hd Hl Hp El Hi Hk Hm.
+    pose proof (gen_continuous ks p l i k Hn Hd Hl Hp El Hi Hk Hm) as H.
+    unfold jump_free, dval in H. cbn [pderivn] in H. fold dflt_spline in H.
+    rewrite (gen_grid ks p l i Hn Hd Hl Hp El Hi) in H.
+    unfold den.
+    change (sgrid (ssup (nth i l (mkSpl (mkSup [] 0 0) 0 []))))
+      with (sgridp (nth i l dflt_spline)).
+    rewrite (gen_grid ks p l i Hn Hd Hl Hp El Hi).
+    replace (nth (k + 1) (unique ks) f0) with (gnth (unique ks) (N.of_nat k + 1)); [exact H|].
+    unfold gnth. f_equal. lia.
+  Qed.
+
+  (* [mult] is the standard occurrence count *)
+  Lemma mult_count_occ (ks : list F) t : mult ks t = count_occ feq_dec ks t.
+  Proof.
+    induction ks as [|c r IH]; [reflexivity|].
+    rewrite mult_cons, IH. cbn [count_occ].
+    destruct (feq_dec c t) as [E|E].
+    - subst c. rewrite feqb_refl. reflexivity.
+    - apply feqb_false in E. rewrite E. reflexivity.
+  Qed.
+
+  (* ================================================================== *)
+  (* boolean checkers (for the examples below)                           *)
+  (* ================================================================== *)
+
+  Definition jump_freeb (s : spline F) (k : N) (d : nat) : bool :=
+    feqb (dval (piece s k) d (gnth (sgridp s) (k + 1)) (mid (sgridp s) k))
+         (dval (piece s (k + 1)) d (gnth (sgridp s) (k + 1)) (mid (sgridp s) (k + 1))).
+
+  Lemma jump_freeb_true (s : spline F) k d : jump_freeb s k d = true <-> jump_free s k d.
+  Proof. apply feqb_true. Qed.
+
+  Lemma jump_freeb_false (s : spline F) k d : jump_freeb s k d = false <-> ~ jump_free s k d.
+  Proof. apply feqb_false. Qed.
+
+  (* every generated function, every interior grid point, every admissible d *)
+  Definition smooth_okb (ks : list F) (p : nat) : bool :=
+    match generate_bsplines p ks with
+    | Ok l =>
+        forallb (fun i =>
+          forallb (fun k =>
+            forallb (fun d => jump_freeb (nth i l dflt_spline) (N.of_nat k) d)
+                    (seq 0 (p + 1 - mult ks (nth (k + 1) (unique ks) f0))))
+            (seq 0 (length (unique ks) - 2)))
+          (seq 0 (length l))
+    | _ => false
+    end.
+
+  (* at every interior grid point some generated function has a jump in the
+     derivative of order p - mult + 1 *)
+  Definition smooth_sharpb (ks : list F) (p : nat) : bool :=
+    match generate_bsplines p ks with
+    | Ok l =>
+        forallb (fun k =>
+          let mu := mult ks (nth (k + 1) (unique ks) f0) in
+          (mu <=? p)%nat &&
+          existsb (fun i => negb (jump_freeb (nth i l dflt_spline) (N.of_nat k) (p + 1 - mu)))
+                  (seq 0 (length l)))
+          (seq 0 (length (unique ks) - 2))
+    | _ => false
+    end.
+
+  Lemma smooth_okb_spec (ks : list F) p : smooth_okb ks p = true ->
+    exists l, generate_bsplines p ks = Ok l /\
+      forall i k d, (i < length l)%nat -> (k + 2 < length (unique ks))%nat ->
+        (d + mult ks (nth (k + 1) (unique ks) f0) <= p)%nat ->
+        jump_free (nth i l dflt_spline) (N.of_nat k) d.
+  Proof.
+    unfold smooth_okb. destruct (generate_bsplines p ks) as [l| |]; try discriminate.
+    intros H. exists l. split; [reflexivity|]. intros i k d Hi Hk Hd.
+    rewrite forallb_forall in H. specialize (H i ltac:(apply in_seq; lia)).
+    rewrite forallb_forall in H. specialize (H k ltac:(apply in_seq; lia)).
+    rewrite forallb_forall in H. specialize (H d ltac:(apply in_seq; lia)).
+    apply jump_freeb_true. exact H.
+  Qed.
+
+  Lemma smooth_sharpb_spec (ks : list F) p : smooth_sharpb ks p = true ->
+    exists l, generate_bsplines p ks = Ok l /\
+      forall k, (k + 2 < length (unique ks))%nat ->
+        (mult ks (nth (k + 1) (unique ks) f0) <= p)%nat /\
+        exists i, (i < length l)%nat /\
+          ~ jump_free (nth i l dflt_spline) (N.of_nat k)
+              (p + 1 - mult ks (nth (k + 1) (unique ks) f0)).
+  Proof.
+    unfold smooth_sharpb. destruct (generate_bsplines p ks) as [l| |]; try discriminate.
+    intros H. exists l. split; [reflexivity|]. intros k Hk.
+    rewrite forallb_forall in H. specialize (H k ltac:(apply in_seq; lia)). cbv zeta in H.
+    apply andb_true_iff in H as [H1 H2]. split; [apply Nat.leb_le; exact H1|].
+    apply existsb_exists in H2 as (i & Hi & H2). apply in_seq in Hi.
+    exists i. split; [lia|]. apply jump_freeb_false. apply negb_true_iff. exact H2.
   Qed.
 
 End SmoothFacts.
+
+(* ---- examples over the rationals: the knot vector [0;0;0;1;2;2;3;4;4;4]
+   (clamped ends, a double knot at 2, simple knots at 1 and 3), orders 2 and 3.
+   Checked by computation, independently of [gen_smooth]: every generated
+   function is jump-free up to order p - mult at every interior grid point,
+   and at every interior grid point some function has a jump in the derivative
+   of order p - mult + 1 (sharpness). ---- *)
+From BSpl Require Import Instances.
+
+Definition ks_smooth : list Qcanon.Qc :=
+  [qc 0 1; qc 0 1; qc 0 1; qc 1 1; qc 2 1; qc 2 1; qc 3 1; qc 4 1; qc 4 1; qc 4 1].
+
+Example gen_smooth_qc_grid :
+  unique ks_smooth = [qc 0 1; qc 1 1; qc 2 1; qc 3 1; qc 4 1] /\
+  map (mult ks_smooth) (unique ks_smooth) = [3; 1; 2; 1; 3]%nat.
+Proof. split; vm_compute; reflexivity. Qed.
+
+Example gen_smooth_qc_checks :
+  smooth_okb ks_smooth 2 = true /\ smooth_okb ks_smooth 3 = true /\
+  smooth_sharpb ks_smooth 2 = true /\ smooth_sharpb ks_smooth 3 = true.
+Proof. repeat split; vm_compute; reflexivity. Qed.
+
+Example gen_smooth_qc_examples : forall p, p = 2%nat \/ p = 3%nat ->
+  exists l, generate_bsplines p ks_smooth = Ok l /\
+    (* smooth up to order p - mult *)
+    (forall i k d, (i < length l)%nat -> (k + 2 < length (unique ks_smooth))%nat ->
+       (d + mult ks_smooth (nth (k + 1) (unique ks_smooth) f0) <= p)%nat ->
+       jump_free (nth i l dflt_spline) (N.of_nat k) d) /\
+    (* and not further *)
+    (forall k, (k + 2 < length (unique ks_smooth))%nat ->
+       exists i, (i < length l)%nat /\
+         ~ jump_free (nth i l dflt_spline) (N.of_nat k)
+             (p + 1 - mult ks_smooth (nth (k + 1) (unique ks_smooth) f0))).
+Proof.
+  intros p Hp.
+  assert (smooth_okb ks_smooth p = true /\ smooth_sharpb ks_smooth p = true) as [H1 H2].
+  { destruct gen_smooth_qc_checks as (A & B & C & D). destruct Hp as [-> | ->]; split; assumption. }
+  destruct (smooth_okb_spec ks_smooth p H1) as (l & El & Hs).
+  destruct (smooth_sharpb_spec ks_smooth p H2) as (l' & El' & Hsh).
+  rewrite El in El'. injection El' as <-.
+  exists l. split; [exact El|]. split; [exact Hs|].
+  intros k Hk. exact (proj2 (Hsh k Hk)).
+Qed.
+
+(* the two ends of the grid (both of multiplicity 3): for p = 3 every generated
+   function vanishes there (d = 0), and some function has a non-zero first
+   derivative there *)
+Example gen_smooth_qc_ends :
+  match generate_bsplines 3 ks_smooth with
+  | Ok l =>
+      let g := unique ks_smooth in
+      forallb (fun s => feqb (dval (piece s 0) 0 (gnth g 0) (mid g 0)) f0
+                        && feqb (dval (piece s 3) 0 (gnth g 4) (mid g 3)) f0) l
+      && existsb (fun s => negb (feqb (dval (piece s 0) 1 (gnth g 0) (mid g 0)) f0)) l
+      && existsb (fun s => negb (feqb (dval (piece s 3) 1 (gnth g 4) (mid g 3)) f0)) l
+  | _ => false
+  end = true.
+Proof. vm_compute. reflexivity. Qed.
+
+(* non-vacuity: the hypotheses of [gen_smooth] hold for this knot vector, so the
+   theorem applies, e.g. to the first derivative of the third cubic function
+   across the double knot 2 *)
+Lemma ks_smooth_hyps :
+  nondecreasing ks_smooth /\ two_distinct ks_smooth /\ (nlen ks_smooth < 2 ^ 63)%N.
+Proof.
+  split; [|split].
+  - intros i a b Ha Hb.
+    do 10 (destruct i as [|i];
+           [cbn [nth_error ks_smooth] in Ha, Hb;
+            first [discriminate Hb
+                  | injection Ha as <-; injection Hb as <-; vm_compute; reflexivity]|]).
+    destruct i; discriminate.
+  - exists 0%nat, 3%nat, (qc 0 1), (qc 1 1).
+    split; [reflexivity|]. split; [reflexivity|]. intros H. discriminate H.
+  - vm_compute. reflexivity.
+Qed.
+
+Example gen_smooth_nonvacuous : forall l, generate_bsplines 3 ks_smooth = Ok l ->
+  jump_free (nth 2 l dflt_spline) 1 1.
+Proof.
+  intros l El. destruct ks_smooth_hyps as (Hn & Hd & Hl).
+  assert (length l = 6%nat) as Ll.
+  { rewrite (gen_length ks_smooth 3 l Hn Hd Hl ltac:(cbn; lia) El). reflexivity. }
+  apply (gen_smooth ks_smooth 3 l 2 1 1 Hn Hd Hl); try exact El.
+  - cbn; lia.
+  - lia.
+  - vm_compute. lia.
+  - vm_compute. lia.
+Qed.
